@@ -41,6 +41,23 @@ impl Opts {
     }
 }
 
+/// A uniformly chosen ucschar (RFC 3987): every lead/continuation byte pattern gets exercised,
+/// not only those of a fixed pool.
+pub fn rand_ucs(rng: &mut Rng) -> char {
+    const RANGES: &[(u32, u32)] = &[
+        (0xA0, 0xD7FF), (0xA0, 0x7FF), (0xA0, 0x24F), (0x370, 0x52F), (0xF900, 0xFDCF), (0xFDF0, 0xFFEF), (0x10000, 0x1FFFD), (0x20000, 0x2FFFD), (0x30000, 0x3FFFD),
+        (0x40000, 0x4FFFD), (0x50000, 0x5FFFD), (0x60000, 0x6FFFD), (0x70000, 0x7FFFD), (0x80000, 0x8FFFD), (0x90000, 0x9FFFD), (0xA0000, 0xAFFFD),
+        (0xB0000, 0xBFFFD), (0xC0000, 0xCFFFD), (0xD0000, 0xDFFFD), (0xE1000, 0xEFFFD),
+    ];
+    loop {
+        let (lo, hi) = rng.pick(RANGES);
+        let c = lo + (rng.next() % (hi - lo + 1) as u64) as u32;
+        if let Some(ch) = char::from_u32(c) {
+            return ch;
+        }
+    }
+}
+
 fn atom(rng: &mut Rng, o: Opts, out: &mut String, extra: &[&str]) {
     let r = rng.below(100);
     if r < 50 {
@@ -52,7 +69,11 @@ fn atom(rng: &mut Rng, o: Opts, out: &mut String, extra: &[&str]) {
     } else if r < 76 && o.bad_pct {
         out.push_str(rng.pick(PCT_BAD));
     } else if r < 88 && o.iri {
-        out.push_str(rng.pick(UCS));
+        if rng.chance(1, 2) {
+            out.push(rand_ucs(rng));
+        } else {
+            out.push_str(rng.pick(UCS));
+        }
     } else if !extra.is_empty() {
         out.push_str(rng.pick(extra));
     } else {
@@ -165,7 +186,11 @@ pub fn host_of(rng: &mut Rng, o: Opts, k: HostKind) -> String {
         HostKind::VFuture => format!("[{}]", ipvfuture(rng)),
         HostKind::NonAscii => {
             if o.iri {
-                format!("{}{}", rng.pick(UCS), rng.pick(&["", ".org", "x"]))
+                let mut h = String::new();
+                for _ in 0..rng.range(1, 4) {
+                    if rng.chance(1, 2) { h.push(rand_ucs(rng)); } else { h.push_str(rng.pick(UCS)); }
+                }
+                format!("{}{}", h, rng.pick(&["", ".org", "x"]))
             } else {
                 "%C3%A9.org".to_string()
             }
@@ -562,7 +587,17 @@ pub fn respell_parts(rng: &mut Rng, p: &Parts) -> Parts {
 /// added, absoluteness flipped, "%2F" vs "/", component presence toggled).
 pub fn perturb_parts(rng: &mut Rng, p: &Parts) -> Parts {
     let mut q = p.clone();
-    match rng.below(9) {
+    match rng.below(10) {
+        9 => {
+            // a segment boundary versus a character that sorts below '/' (orderings must still be total)
+            let idx: Vec<usize> = p.path.char_indices().filter(|(i, c)| *c == '/' && *i > 0).map(|(i, _)| i).collect();
+            if idx.is_empty() {
+                q.path.push_str("-x");
+            } else {
+                let i = rng.pick(&idx);
+                q.path.replace_range(i..i + 1, rng.pick(&["-", "!", "$", "&", "'", "(", ")", "*", "+", ",", "%2D"]));
+            }
+        }
         0 => q.path.push_str("/"),
         1 => q.path.push_str("/z"),
         2 => {
